@@ -6,6 +6,8 @@ from .common import *
 from .vecdiff import *
 from .c01 import CALL_CLOSURE
 
+CRATES = (IM,)
+
 META = {
     "explanation": (
         "Static decision on MIR. R18.1 `map` is the functorial image: in each of the 11 arms every VectorDiff built is the matched variant, its "
